@@ -7,6 +7,9 @@ import re
 
 TRIVIAL_OUTPUTS = {"", "-", "u", "bad-op"}
 
+# streams whose generator emits cases that the Lean spec writer expands (driver op prefix)
+PREP = {"e2e.C01.roundtrip": "w."}
+
 TRUSTED_BASE = [
     "Lean 4.33.0 kernel (thorough tier: leanchecker re-check of the compiled property modules)",
     "axioms per theorem as printed by #print axioms, restricted to propext / Classical.choice / Quot.sound (no sorry, no native_decide, no bv_decide, no added axiom)",
@@ -29,9 +32,42 @@ def args_of(op):
 
 
 # narrow witness classes of the known findings: (stream, op, impl_out) -> bool
-KNOWN_CLASSES = {}
+def _padrows_with_row_props(stream, op, impl_out):
+    f = op.split("\t")
+    return stream == "corr.confgen.layoutPairs" and f[0] == "tp.pair" and f[1] == "padrows" and re.search(r";(pr|fx|sz=|sq=)", f[4]) is not None
+
+
+KNOWN_CLASSES = {
+    # D35: blank data rows are parsed like any row: with present / sequence / fixed / size properties an appended blank row changes the outcome
+    "padrows_with_row_props": _padrows_with_row_props,
+}
 
 PROPS = {
+    "C01": {
+        "lean_modules": ["TableauVerif.Props.C01"],
+        "oracles": ["c01.rt"],
+        "streams": [
+            ("e2e.C01.roundtrip", 8000, 300000),
+            ("corr.confgen.tableParse", 6000, 200000),
+        ],
+        "assumptions": [
+            "the specification of 'what a sheet states' is the Lean writer Spec.C01.write (type-DSL layout rules); generated (schema, message) cases are written by it and converted by the REAL table parser (in-memory rows through the verif hook)",
+            "modelled kinds: int32/uint32/int64/uint64/bool/string; enum, float, well-known types, unions are not in the round trip yet; protogen (header → schema) is composed in C02's check, not here",
+            "theorem coverage is partial: scalar layer (C01_scalar_roundtrip, C01_flat_scalars_partial); aggregates are decided by the round-trip oracle on the implementation and by the model correspondence",
+        ],
+    },
+    "C10": {
+        "lean_modules": ["TableauVerif.Props.C10"],
+        "oracles": ["tp.pair"],
+        "streams": [
+            ("corr.confgen.layoutPairs", 6000, 200000),
+            ("corr.confgen.tableParse", 6000, 200000),
+        ],
+        "assumptions": [
+            "modelled: the confgen table parser (Parse, parseMessage, all map/list layouts, keyed lists, structs, scalars, presence/range, E0003, CellDebugKV) for int32/uint32/int64/uint64/bool/string; enums, floats, well-known types, unions, refer, default, adjacent-key population are not modelled (not generated)",
+            "the protogen half of the property (same schema from a sheet and its transposed form) is not covered by this check yet (partial)",
+        ],
+    },
     "C05": {
         "lean_modules": ["TableauVerif.Props.C05"],
         "oracles": ["c05.typeinfos", "c05.gen"],
@@ -58,9 +94,11 @@ PROPS = {
     },
     "C12": {
         "lean_modules": ["TableauVerif.Props.C12"],
-        "oracles": ["c12.range"],
+        "oracles": ["c12.range", "c12.contig"],
         "streams": [
             ("corr.fieldprop.range", 12000, 400000),
+            ("e2e.C12.contiguity", 1200, 60000),
+            ("corr.confgen.tableParse", 4000, 100000),
         ],
         "assumptions": [
             "modelled: fieldprop.CheckInRange (signed/unsigned integer kinds, string length), CheckMapKeySequence (signed keys), GetSize/IsFixed; float ranges answered by the implementation only (not modelled)",
